@@ -77,7 +77,7 @@ def replay_closure(ctx, n, states, rng):
                 for pc in gens:
                     lhs = Ud @ dense_pauli(code_to_f2(pc, n)) @ U
                     rhs = dense_pauli(code_to_f2(obs['acts'][pc], n))
-                    if np.abs(lhs - rhs).max() > 1e-9:
+                    if core.gt(np.abs(lhs - rhs).max(), 1e-9):
                         bad('to_universal_circuit/state-vector', 'U^dagger P U by the state-vector simulator differs from the tableau', dict(data, pauli=li(code_to_f2(pc, n))))
                         break
                 ar, aS = clifford_array_to_F2(Ud)
